@@ -85,6 +85,12 @@ func (lc *LocalClient) AddVersion(v Version, deps []RequirementVersion) {
 		return
 	}
 
+	// Keep private copies of the attributes: an AttrSet holds a map, which
+	// would otherwise stay shared with the caller's Version.
+	if !v.AttrSet.Empty() {
+		v.AttrSet = v.AttrSet.Clone()
+	}
+
 	versions := lc.PackageVersions[v.PackageKey]
 	// If an equivalent version already exists, replace it to use the new
 	// attributes.
@@ -107,6 +113,12 @@ func (lc *LocalClient) AddVersion(v Version, deps []RequirementVersion) {
 	// Keep a private copy: the caller's slice must neither be reordered nor
 	// stay shared with the client.
 	deps = slices.Clone(deps)
+	for i := range deps {
+		// slices.Clone is shallow: a dep.Type holds a map.
+		if !deps[i].Type.IsRegular() {
+			deps[i].Type = deps[i].Type.Clone()
+		}
+	}
 	SortDependencies(deps)
 	lc.imports[v.VersionKey] = deps
 
